@@ -29,7 +29,7 @@ func init() { core.Register(prop{}) }
 func (prop) ID() string    { return "C20" }
 func (prop) Level() string { return "exploration" }
 func (prop) Rule() string {
-	return "scenario = one raw listener instance (verif constructor, real receive loop and knock detector) receiving bursts of 1..150 probes (TCP SYN, UDP to undecoded ports, ICMP echo, repeated ports) from 1..4 sources whose probes are interleaved (all orders for 2 sources x 3 probes and 3 x 2, seeded beyond); single- and mixed-protocol bursts; events collected after the detector's tick. Plus: all operation sequences of length <=6 over Add/Remove/Each/Count/Find on 3 keys of the grouping container against a set model. Non-trivial = >=1 portscan event observed / a sequence that changed the set; distinct by scenario parameters. Also a source that scans again after it has been reported (repeat-scan): the second burst must be reported on its own. Slow-tail scans: 105-140 probes at once, then one every 200 ms for six seconds, alone and after another source's single probe. fixed-source-port scans: every probe of a source carries the same source port and the probed ports are that port and its neighbours (tcp; udp on ports without a decoder), in shuffled orders, half of them repeated after the report."
+	return "scenario = one raw listener instance (verif constructor, real receive loop and knock detector) receiving bursts of 1..150 probes (TCP SYN, UDP to undecoded ports, ICMP echo, repeated ports) from 1..4 sources whose probes are interleaved (all orders for 2 sources x 3 probes and 3 x 2, seeded beyond); single- and mixed-protocol bursts; events collected after the detector's tick. Plus: all operation sequences of length <=6 over Add/Remove/Each/Count/Find on 3 keys of the grouping container against a set model. Non-trivial = >=1 portscan event observed / a sequence that changed the set; distinct by scenario parameters. Also a source that scans again after it has been reported (repeat-scan): the second burst must be reported on its own. Slow-tail scans: 105-140 probes at once, then one every 200 ms for six seconds, alone and after another source's single probe. fixed-source-port scans: every probe of a source carries the same source port and the probed ports are that port and its neighbours (tcp; udp on ports without a decoder), in shuffled orders, half of them repeated after the report. two-sensor-addresses: the listener owns a second interface; one or two sources probe ports on both addresses in one burst; one report per source and destination."
 }
 func (prop) Assumptions() []string {
 	return []string{"TCP probes avoid port 22 (ignored by the packet handler on purpose) and UDP probes avoid the decoded ports", "for mixed-protocol bursts one event per protocol group is accepted; every pair must still be listed exactly once overall", "events are awaited for up to 16 s (three detector periods); verdicts are on content"}
